@@ -3,7 +3,7 @@
 # keeps a copy of each evidence file under build/thorough/, then re-runs every quick tier so that
 # evidence/ ends with the quick runs of the final tree.  Usage: tools/thorough_all.sh [log]
 cd "$(dirname "$0")/.."
-log=${1:-build/thorough_all.log}
+export log=${1:-build/thorough_all.log}
 mkdir -p build/thorough
 : > "$log"
 run() { p=$1; s=$(date +%s); ./check $p --tier thorough > build/thorough/$p.out 2>&1; rc=$?; cp evidence/$p.json build/thorough/$p.json
